@@ -39,9 +39,10 @@ pub const IDS: [(&str, &str); 29] = [
     ("ab", "c"),
     ("a", "bc"),
     ("", "x"),
-    // two long ids that differ only in their last character (beyond any 32- or 64-byte prefix)
-    ("ethereum", "0xaaaaaaaaaaaaaaaaaaaaaaaaaaaaaaaaaaaaaaaaaaaaaaaaaaaaaaaaaaaaaaaaaaaaaaaaaaaaaaaa-1"),
-    ("ethereum", "0xaaaaaaaaaaaaaaaaaaaaaaaaaaaaaaaaaaaaaaaaaaaaaaaaaaaaaaaaaaaaaaaaaaaaaaaaaaaaaaaa-2"),
+    // two long ids (over 150 bytes, beyond any 32-, 64- or 128-byte prefix or key-size threshold) that differ
+    // only in their last character
+    ("ethereum", "0xaaaaaaaaaaaaaaaaaaaaaaaaaaaaaaaaaaaaaaaaaaaaaaaaaaaaaaaaaaaaaaaaaaaaaaaaaaaaaaaaaaaaaaaaaaaaaaaaaaaaaaaaaaaaaaaaaaaaaaaaaaaaaaaaaaaaaaaaaaaaaaaaaaaaaa-1"),
+    ("ethereum", "0xaaaaaaaaaaaaaaaaaaaaaaaaaaaaaaaaaaaaaaaaaaaaaaaaaaaaaaaaaaaaaaaaaaaaaaaaaaaaaaaaaaaaaaaaaaaaaaaaaaaaaaaaaaaaaaaaaaaaaaaaaaaaaaaaaaaaaaaaaaaaaaaaaaaaaa-2"),
     // pairs whose (chain, id) differ only in where the boundary falls around a separator character:
     // any key built as chain + sep + id collides.  Each mate directly follows its partner, so the
     // "next id" deviation turns an approved message into its mate.
